@@ -17,6 +17,10 @@ func (k Key) Equal(k2 Key) bool {
 type KeySet struct {
 	head Key
 	tail []Key
+
+	// nonEmpty is true if the set has at least one key. The head
+	// may legitimately be a nil (empty) key.
+	nonEmpty bool
 }
 
 func (ks KeySet) First() Key {
@@ -24,7 +28,7 @@ func (ks KeySet) First() Key {
 }
 
 func (ks KeySet) Foreach(fn func(Key)) {
-	if ks.head == nil {
+	if !ks.nonEmpty {
 		return
 	}
 	fn(ks.head)
@@ -34,6 +38,9 @@ func (ks KeySet) Foreach(fn func(Key)) {
 }
 
 func (ks KeySet) Exists(k Key) bool {
+	if !ks.nonEmpty {
+		return false
+	}
 	if ks.head.Equal(k) {
 		return true
 	}
@@ -49,5 +56,5 @@ func NewKeySet(keys ...Key) KeySet {
 	if len(keys) == 0 {
 		return KeySet{}
 	}
-	return KeySet{keys[0], keys[1:]}
+	return KeySet{keys[0], keys[1:], true}
 }
